@@ -105,7 +105,7 @@ impl ZoneStore {
         trace!("store resolve");
 
         // Check cache first (short lock scope)
-        {
+        let generation = {
             let mut cache = self.cache.lock().await;
             if let Some(rset) = cache.resolve(pubkey, name, record_type) {
                 debug!(
@@ -114,12 +114,21 @@ impl ZoneStore {
                 );
                 return Ok(Some(rset));
             }
-        }
+            cache.generation
+        };
 
         // Check persistent store
-        if let Some(packet) = self.store.get(pubkey).await? {
+        if let Some(mut packet) = self.store.get(pubkey).await? {
             trace!(packet_timestamp = ?packet.timestamp(), "store hit");
             let mut cache = self.cache.lock().await;
+            if cache.generation != generation {
+                // A publish was acknowledged since the cache miss, so the packet read above may
+                // be outdated and must not be cached.  Read again while holding the cache lock:
+                // a publish acknowledged after this read invalidates the cache after our insert.
+                if let Some(newest) = self.store.get(pubkey).await? {
+                    packet = newest;
+                }
+            }
             let result = cache.insert_and_resolve(&packet, name, record_type);
             return match result {
                 Ok(Some(rset)) => {
@@ -147,11 +156,14 @@ impl ZoneStore {
                 && let Ok(packet) = mutable_item_to_signed_packet(&item)
             {
                 debug!("DHT resolve successful {:?}", packet);
-                return self
-                    .cache
-                    .lock()
-                    .await
-                    .insert_and_resolve_dht(&packet, name, record_type);
+                let mut cache = self.cache.lock().await;
+                if cache.generation != generation
+                    && let Some(packet) = self.store.get(pubkey).await?
+                {
+                    // The key was published here while we asked the DHT: the store is authoritative.
+                    return cache.insert_and_resolve(&packet, name, record_type);
+                }
+                return cache.insert_and_resolve_dht(&packet, name, record_type);
             }
             debug!("DHT resolve failed");
         }
@@ -213,6 +225,11 @@ struct ZoneCache {
     dht_cache: TtlCache<PublicKeyBytes, CachedZone>,
     #[debug("metrics")]
     metrics: Arc<Metrics>,
+    /// Incremented whenever entries are invalidated by [`Self::remove`].
+    ///
+    /// Lets a lookup detect that a publish was acknowledged between its cache miss and the
+    /// moment it wants to cache what it read from the store or the DHT in the meantime.
+    generation: u64,
 }
 
 impl ZoneCache {
@@ -223,6 +240,7 @@ impl ZoneCache {
             cache,
             dht_cache,
             metrics,
+            generation: 0,
         }
     }
 
@@ -292,6 +310,7 @@ impl ZoneCache {
     }
 
     fn remove(&mut self, pubkey: &PublicKeyBytes) {
+        self.generation = self.generation.wrapping_add(1);
         self.cache.pop(pubkey);
         self.dht_cache.remove(pubkey);
         self.metrics.cache_zones.set(self.cache.len() as i64);
